@@ -3,6 +3,12 @@ package main
 // Property runners for the concurrency properties C01, C03, C05, C06, C07, C08: generator-source (GS) rules
 // followed by the analysis of the checked-in outputs (CO, see co.go).
 
+import (
+	"strings"
+
+	"golang.org/x/tools/go/ssa"
+)
+
 func init() {
 	register(&propDef{
 		id: "C01", withTestdata: true,
@@ -27,6 +33,26 @@ func init() {
 			ruleWhoMayCall(c, "C01.7", "(*InjectorProviderCallStmt).channelsWait", "a wait is emitted only by a provider statement for its own arguments", "(*InjectorProviderCallStmt).Stmt")
 			ruleSyncJoinsItsInputs(c, "C01.10")
 			ruleDoneCaseLeaves(c, "C01.11")
+			// user identifiers reach the allocator (a generated local that takes the name of a package-level variable of a sibling
+			// file shadows it in the copied provider expression: the predeclared local is then read before it is written)
+			{
+				sub := &Ctx{Prop: c.Prop, Tier: c.Tier, L: c.L, FuncsSeen: c.FuncsSeen, Extra: c.Extra, RoleNames: c.RoleNames}
+				alloc := map[*ssa.Function]bool{}
+				for _, fn := range pkgFuncs(c.L, genPkg) {
+					if strings.HasSuffix(fn.String(), "VarPool).GetName") || strings.HasSuffix(fn.String(), "VarPool).Get") || strings.HasSuffix(fn.String(), "VarPool).GetChannel") {
+						alloc[fn] = true
+					}
+				}
+				c12Registration(sub, alloc)
+				for _, o := range sub.Obls {
+					o.Rule = "C01.12"
+					c.Obls = append(c.Obls, o)
+				}
+				for _, f := range sub.Finds {
+					f.Rule = "C01.12"
+					c.Finds = append(c.Finds, f)
+				}
+			}
 			coRun(c, "C01.8", coRace)
 		},
 		explanation: "GS (all generator inputs, emission discipline): inside every producer statement the wait is appended before the provider call and the close after it; done-channels are declared, awaited and closed under one predicate (truth tables over the guarding atoms, exhaustively enumerated); IsWait=false implies same pool or already-provided (exhaustive table over pool indices in {-1,0,1}); InjectorParam.Ref keeps the channel flag sticky; shared variables are assigned with = whenever the injector predeclares them; each dependency edge is recorded in both directions in one block, the topological counter is len(reverseEdges); every built pool is marked processed; argument/wait collection loops have no early exit. " +
@@ -83,6 +109,7 @@ func init() {
 			rulePoolCountIsAntichain(c, "C05.11")
 			ruleCandidatePoolScannedWhole(c, "C05.12")
 			ruleCallerAppendsSyncPoolsOnly(c, "C05.13")
+			ruleMatchingVisitedFreshPerRoot(c, "C05.14")
 			ruleQueueIsFIFO(c, "C05.9")
 			ruleSourcesSeededFirst(c, "C05.9")
 			ruleArgminOverCandidates(c, "C05.9")
@@ -104,6 +131,7 @@ func init() {
 			ruleConstQualifiersBound(c, "C06.14")
 			rulePairedEdges(c, "C06.15")
 			ruleContextInjectedOnEveryPath(c, "C06.16")
+			ruleTemplatesNotPatched(c, "C06.17")
 			ruleHandlerNeverNil(c, "C06.2")
 			ruleErrorFlow(c, "C06.3", true, false, false)
 			ruleIsWaitTable(c, "C06.5")
